@@ -77,6 +77,11 @@ def run(prog: Program, rep: Report, tier: str):
     # typed) arrays, which is what tree_serialise_leaves / tree_deserialise_leaves restore; a weakly typed leaf (a Python
     # float passed through) promotes differently after the round trip
     rule_cast(prog, rep, "C14.cast")
+    # ... and the parameter bijections request it: Affine / Loc / Scale / TriangularAffine convert their arguments with
+    # dtype=float, so a Python scalar becomes a strongly typed leaf (a weakly typed leaf changes dtype - and how the
+    # model promotes its inputs - on a serialise / deserialise round trip)
+    from .c05 import rule_param_ctors
+    rule_param_ctors(prog, rep, "C14.strong-leaves", declare=True)
     # a field annotated as Python ints / tuples is used as such (shapes, split points, axes): stored as a jax array it
     # is a traced leaf under jit and the Python-level use fails, while the eager call works
     from .leaves import rule_static_fields
